@@ -336,6 +336,12 @@ func runCase(raw json.RawMessage) interface{} {
 	if c.Mode == "node" {
 		return runNode(c)
 	}
+	if c.Mode == "fallback" {
+		return runFallback(c)
+	}
+	if c.Mode == "ttl" {
+		return runTTL(c)
+	}
 	return runSched(c)
 }
 
